@@ -220,7 +220,7 @@ func c04Reclaim() {
 func c04Fixed() {
 	cool := drawCooldown()
 	max := simrt.DrawRange(1, 5)
-	target := simrt.DrawRange(0, max)
+	target := simrt.DrawRange(-2, max) // "target <= max": a negative target asks for more than everything, i.e. everything
 	forced := 0
 	b := newBuffer(bigbuff.FixedBufferCleaner(max, target, func(n bigbuff.FixedBufferCleanerNotification) { forced++ }), cool)
 	nCons := simrt.DrawRange(0, 2)
